@@ -10,6 +10,7 @@ import (
 	"github.com/cosmos/cosmos-sdk/crypto/keys/ed25519"
 	"github.com/cosmos/cosmos-sdk/crypto/keys/secp256k1"
 	sdk "github.com/cosmos/cosmos-sdk/types"
+	authtypes "github.com/cosmos/cosmos-sdk/x/auth/types"
 	gethcommon "github.com/ethereum/go-ethereum/common"
 	gethcrypto "github.com/ethereum/go-ethereum/crypto"
 
@@ -121,6 +122,9 @@ func (n *Names) AddrString(name string) string {
 	}
 	if name == "tmp" {
 		return mhubtypes.TempAddress.String()
+	}
+	if name == "mod" { // the bridge module account (a blocked address)
+		return authtypes.NewModuleAddress(mhubtypes.ModuleName).String()
 	}
 	return n.Acct(name).Addr.String()
 }
